@@ -541,6 +541,40 @@ def same(got, want, ordered=True):
         return f"comparison raised {e!r}"[:300]
 
 
+def diff_class(got, want, ordered=True):
+    """coarse, value-free description of HOW got differs from want (part of the finding key)"""
+    try:
+        if type(got) is not type(want):
+            return "type"
+        if isinstance(want, pd.DataFrame):
+            if list(got.columns) != list(want.columns):
+                return "columns-order" if sorted(map(str, got.columns)) == sorted(map(str, want.columns)) else "columns"
+        if isinstance(want, (pd.DataFrame, pd.Series, pd.Index)):
+            if len(got) != len(want):
+                return "length"
+        if isinstance(want, (pd.DataFrame, pd.Series)):
+            g, w = _unrange(got), _unrange(want)
+            if dfh.equal(g, w, ordered=ordered, check_dtype=False) is None:
+                # only dtypes differ; categories in another order?
+                gd = list(g.dtypes) if isinstance(g, pd.DataFrame) else [g.dtype]
+                wd = list(w.dtypes) if isinstance(w, pd.DataFrame) else [w.dtype]
+                cat = [isinstance(a, pd.CategoricalDtype) and isinstance(b, pd.CategoricalDtype) and a != b and set(a.categories) == set(b.categories) and a.ordered == b.ordered for a, b in zip(gd, wd)]
+                other = [a != b for a, b, c in zip(gd, wd, cat) if not c]
+                if any(cat) and not any(other):
+                    return "categories-order"
+                if g.index.dtype != w.index.dtype:
+                    return "index-dtype"
+                return "dtype"
+            if dfh.equal(g, w, ordered=False, check_dtype=False) is None:
+                return "row-order"
+            if dfh.equal(g.reset_index(drop=True), w.reset_index(drop=True), ordered=True, check_dtype=False) is None:
+                return "index"
+            return "values"
+        return "values"
+    except Exception:  # noqa: BLE001
+        return "values"
+
+
 def summary(p):
     if isinstance(p, pd.DataFrame):
         return ("F", p.shape, tuple(str(t) for t in p.dtypes))
